@@ -70,7 +70,7 @@ impl Prop for C06 {
         "generated: application built from files over a lattice network (optionally with an unreachable island) in 7 plugin/search configurations (ids; grid; vertex matching before / after grid with a haversine load balancer; inject + grid + custom numeric balancer; edge orientation with edge matching; speed model with a small iteration limit) x batch of 1-24 queries mixing valid, unreachable, out-of-range, far-away, ill-typed, missing-field, terminated and grid-search queries (1-6 siblings) x a permutation x parallelism 1-16 twice (configuration and per run) x per-query delays injected by a harness output plugin x both persistence policies (discard: responses read back from a JSON-lines file). Oracles: response count per query from a reference model of the configured input pipeline; each response carries its request; multisets of canonical responses equal between run-alone (parallelism 1, one query per call), the batch and the permuted batch; load balancing partitions any weighted query list. Enumerated: all (batch size 1-24) x (parallelism 1-16) pairs with a simple query mix. non-trivial = batch larger than a parallelism >= 2 containing at least one failing and one succeeding query".to_string()
     }
     fn cases(&self, tier: Tier) -> u32 {
-        tier.pick(4_000, 100_000)
+        tier.pick(10_000, 150_000)
     }
     fn exhaustive_note(&self, _tier: Tier) -> Option<String> {
         Some("the (batch size, parallelism) plane for sizes 1..24 and parallelism 1..16 with a fixed simple query mix (chunk arithmetic)".into())
